@@ -29,13 +29,18 @@ def stream_real(tier, seed):
     n = 4 if tier == "quick" else 24
     problems, stats, samples = [], {}, []
     for idx in range(n):
-        r = S.check_resolve(idx + 6 * (seed % 1000), problems, stats, None)
-        if idx < 2:
-            samples.append(r)
+        m = idx + 6 * (seed % 1000)
+        try:
+            r = S.check_resolve(m, problems, stats, None)
+            if idx < 2:
+                samples.append(r)
+        except Exception as e:         # re-solving / evaluating a well-posed model must not raise
+            problems.append(dict(kind="real-model-raised", model=m, error="%s: %s" % (type(e).__name__, str(e)[:200])))
     for pr in problems:
         pr["generator"] = "real"
-    return dict(name="scs-resolves", evaluations=4 * n, distinct_nontrivial=n,
-                rule="per model 4 SCS solves: twice unchanged (same value 1e-3, same counts sent), after replacing the "
+    return dict(name="scs-resolves", evaluations=6 * n, distinct_nontrivial=n,
+                rule="per model 6 SCS solves: twice unchanged (same value 1e-3, same counts sent), after one more iteration + "
+                     "metric (new leaf expressions between solves) and after replacing the "
                      "initial condition radius 1 -> 4 (value = value of the newly built radius-4 model, 1e-3), and that "
                      "newly built model; distinct = distinct models",
                 n_mismatch=0, mismatches=[], problems=problems[:5], n_problems=len(problems), samples=samples,
@@ -56,7 +61,10 @@ def search(tier, seed):
         return found
     problems, stats = [], {}
     for idx in range(6):
-        S.check_resolve(idx, problems, stats, None)
+        try:
+            S.check_resolve(idx, problems, stats, None)
+        except Exception as e:
+            problems.append(dict(kind="real-model-raised", model=idx, error="%s: %s" % (type(e).__name__, str(e)[:200])))
         if problems:
             return dict(generator="real", **problems[0])
     return None
@@ -96,10 +104,13 @@ def _finding_C13d():
 def known_findings(known):
     out = []
     for k in known:
-        if k["id"] == "F-C13a":
-            out.append((k["id"], _finding_C13a(), k["what"]))
-        elif k["id"] == "F-C13d":
-            out.append((k["id"], _finding_C13d(), k["what"]))
+        fn = {"F-C13a": _finding_C13a, "F-C13d": _finding_C13d}.get(k["id"])
+        if fn:
+            try:
+                still = fn()
+            except Exception:          # anything else than the listed behaviour is not this finding
+                still = False
+            out.append((k["id"], still, k["what"]))
     return out
 
 
@@ -113,7 +124,10 @@ def is_known(payload, known):
 def replay(payload):
     if payload.get("generator") == "real":
         problems, stats = [], {}
-        S.check_resolve(payload["model"], problems, stats, None)
+        try:
+            S.check_resolve(payload["model"], problems, stats, None)
+        except Exception:
+            return True
         return bool(problems)
     if "case_seed" in payload:
         return S.replay_case(payload)
